@@ -61,9 +61,6 @@ Inductive encoding := Utf8 | Wide | Narrow.
 Definition enc_is_wide (em : encoding) : bool := match em with Wide => true | _ => false end.
 Definition enc_is_utf8 (em : encoding) : bool := match em with Utf8 => true | _ => false end.
 
-(* AttributeError has no constructor in PyBase.errkind: it is reported as OtherError *)
-Definition AttributeErrorK : errkind := OtherError.
-
 (* ---------- KeyqueueTrie ---------- *)
 Inductive trie := TLeaf (name : list Z) | TNode (children : list (Z * trie)).
 
@@ -199,9 +196,8 @@ Definition INT_MAX_STR_DIGITS : Z := 4300.
 Definition py_int (s : list Z) : option Z :=
   let s := strip_space s in
   let '(sign, ds) := match s with
-                     | 43 :: r => (1, r)
-                     | 45 :: r => (-1, r)
-                     | _ => (1, s)
+                     | c :: r => if c =? 43 then (1, r) else if c =? 45 then (-1, r) else (1, s)
+                     | [] => (1, s)
                      end in
   match int_digits ds false 0 0 with
   | Some (v, n) => if INT_MAX_STR_DIGITS <? n then None else Some (sign * v)
@@ -414,25 +410,17 @@ Definition utf8_step (em : encoding) (code : Z) (tl : list Z) (more : bool) : op
     end
   else None.
 
-(* urwid.util.is_mouse_event *)
-Definition is_mouse_event (ev : event) : bool :=
-  match ev with
-  | Mouse name _ _ _ => contains_sub str_mouse name
-  | _ => false
-  end.
-
 (* the "Meta keys -- ESC+Key form" block, after the recursive call returned (run, remaining_codes) *)
 Definition meta_wrap (run : list event) (rest : list Z) : outcome res :=
   match run with
-  | [] => OErr IndexError
+  | [] => OErr IndexError                           (* run[0] *)
   | r0 :: rt =>
-      if is_mouse_event r0 then OOk (Key str_esc :: run, rest)
-      else match r0 with
-           | Key s =>
-               if zs_eqb s str_esc || contains_sub str_meta s then OOk (Key str_esc :: run, rest)
-               else OOk (Key (str_meta ++ s) :: rt, rest)
-           | _ => OErr AttributeErrorK             (* run[0].find on a tuple / None *)
-           end
+      match r0 with
+      | Key s =>
+          if zs_eqb s str_esc || contains_sub str_meta s then OOk (Key str_esc :: run, rest)
+          else OOk (Key (str_meta ++ s) :: rt, rest)
+      | _ => OOk (Key str_esc :: run, rest)         (* not isinstance(run[0], str): mouse event / cursor position tuple *)
+      end
   end.
 
 (* process_keyqueue(codes, more_available) *)
